@@ -20,6 +20,7 @@ verus! {
 //@struct Transaction @ src/transaction/mod.rs clone
 //@include spec/script.rs
 //@include spec/script_tok.rs
+//@include spec/varint.rs
 //@include spec/tx.rs
 //@include spec/sighash.rs
 //@include shims/varint.rs
